@@ -83,9 +83,31 @@ def qflip(s: Q) -> None:
 def both(a: qubit, b: qubit) -> None:
     x(a)
     cx(a, b)
+
+@guppy
+def nxt(ctr: array[int, 1]) -> int:
+    ctr[0] += 1
+    return ctr[0] - 1
+
+@guppy
+def rebind_branch(a: array[int, 2]) -> None:
+    if a[0] > 0:
+        a = array(7, 8)
+        a[1] = 9
+
+@guppy
+def rebind_loop(a: array[int, 2]) -> None:
+    for _ in range(2):
+        a = array(70, 80)
+    a[0] = 6
+
+@guppy
+def rebind_entry(a: array[int, 2]) -> None:
+    a = array(17, 18)
+    a[1] = 19
 '''
 
-ARR_CALLEES = ["set0", "inc1", "swap01", "nested"]
+ARR_CALLEES = ["set0", "inc1", "swap01", "nested", "rebind_branch", "rebind_loop", "rebind_entry"]
 S_CALLEES = ["sset", "sdeep"]
 Q_CALLEES = ["flip", "flip2"]
 
@@ -103,6 +125,8 @@ def arr_places():
               [l for n in range(3) for l in obs(f"xss[{n}]")], 1))
     P.append(("field-of-array-element", ["ss = array(S(array(1, 2), 0), S(array(3, 4), 1))"], "ss[i].arr",
               [l for n in range(2) for l in obs(f"ss[{n}].arr")], 1))
+    P.append(("array-element-impure-index", ["xss = array(array(1, 2), array(3, 4), array(5, 6))", "ctr = array(i)"], "xss[nxt(ctr)]",
+              [l for n in range(3) for l in obs(f"xss[{n}]")] + ['result("ctr", ctr[0])'], 1))
     P.append(("element-of-element", ["x3 = array(array(array(1, 2), array(3, 4)), array(array(5, 6), array(7, 8)))"], "x3[i][j]",
               [l for a in range(2) for b in range(2) for l in obs(f"x3[{a}][{b}]")], 2))
     return P
@@ -196,6 +220,15 @@ def eval_program(item):
         inputs = [(a, b) for a in range(2) for b in range(2)]
     for args in inputs:
         st, _, trace = _Oracle(6000).run(code, "main", list(args))
+        if st == "panic":
+            # (only the impure-index place can run out of bounds) the compiled program must panic too
+            r = hugrvm.run(h, "main", [hugrvm.to_vm(a) for a in args], step_budget=300000)
+            res["runs"] += 1
+            if r.status != "panic":
+                res["dis"] = {"cls": "no-panic-where-python-model-panics", "input": list(args), "python": _norm(trace),
+                              "guppy": [r.status, _norm(r.events)]}
+                return res
+            continue
         if st != "ok":
             res["harness"] = f"oracle {st} on {args}: {_}"
             return res
